@@ -9,7 +9,7 @@
    code (after 1e7055a5f and 77807d108). *)
 From Coq Require Import Sorted.
 From GixV.Base Require Import Bytes Outcome.
-From GixV.C04 Require Import Model Spec ProofsCmp ProofsSort ProofsSearch ProofsLevel ProofsInv ProofsForget ProofsTidy ProofsExamples.
+From GixV.C04 Require Import Model Spec ProofsCmp ProofsSort ProofsSearch ProofsLevel ProofsInv ProofsForget ProofsTidy ProofsTotal ProofsExamples.
 
 (* one level of a path: the two binary searches find an entry of that name if and only if there is
    one (whatever its kind), else the insertion point that keeps git's order *)
@@ -80,6 +80,24 @@ Proof. exact upsert_or_remove_tidy. Qed.
 Theorem editor_write_keeps_only_the_root : forall fuel pb w id m o n,
   write_loop fuel WNormal pb w = Ok (id, m, o, n) -> exists t, m = [(pb, t)].
 Proof. exact write_loop_normal_shape. Qed.
+
+(* the edit path NEVER PANICS and never runs out of fuel: whenever all trees are in order, no stale subtree
+   exists, the tree the path buffer points at is in memory and the buffer does not end in '/',
+   upsert_or_remove_at_pathbuf returns Ok(..) or one of its two errors — `expect("root is always present")`,
+   both binary searches, `entries[idx]`, Vec::insert / Vec::remove and push_path_component's debug assertion
+   all hold.  Result [Ok (st', r)]: r is EOk, EEmpty (Err EmptyPathComponent) or EFind (Err FindExistingObject). *)
+Theorem edit_never_panics : forall st comps ki,
+  SInv st -> Tidy (trees st) -> tm_get (path_buf st) (trees st) <> None -> no_trail (path_buf st) ->
+  Forall slash_free comps -> ki_ok ki -> ki_tidy ki ->
+  exists st' r, upsert_or_remove_at_pathbuf st comps ki = Ok (st', r).
+Proof. exact edit_total_any_prefix. Qed.
+
+(* … in particular Editor::{upsert, remove, cursor_at} after ANY history on a new editor *)
+Theorem editor_edits_never_panic_after_any_history : forall ops st' comps ki,
+  Forall eop_ok ops -> Forall eop_no_cursor_write ops -> erun (init_state [] [] 0) ops = Ok st' ->
+  Forall slash_free comps -> ki_ok ki -> ki_tidy ki ->
+  exists st'' r, upsert_or_remove_at_pathbuf (with_path st' []) comps ki = Ok (st'', r).
+Proof. exact editor_edit_total_after_history. Qed.
 
 (* the part of the property that is NOT proved (tested by the correspondence run and the oracle only):
    writing equals building the resulting set of paths from scratch.  [denote] would map an editor state to
